@@ -281,8 +281,30 @@ def check(ctx):
                        "a path that holds a reserved slot answers 'rejected' (hands the item / setter back): the queue is reported full although the fullness guard passed")
     ctx.floor("R02.6", 6)
     # ---------------------------------------------------------------- R02.7 full-sync: the lock is the reservation (shared with C01 R01.6)
+    check_crossbeam_capacity(ctx, "R02.2")
     if not isinstance(ctx, util.PrefixedCtx):
         C01.check_full_sync_reservation(ctx, "R02.7")
+        # R02.8 an element leaves the ring whole: it is copied out before its slot counts as free again (a producer waiting on a full ring would overwrite it mid-copy;
+        # shared with C01 R01.1)
+        C01.check_read_before_release(ctx, "R02.8")
+        ctx.floor("R02.8", 4)
+
+def check_crossbeam_capacity(ctx, rule):
+    """the crossbeam-backed channels hold exactly BUFFER_SIZE events: every `crossbeam_channel::bounded(..)` in the crate is given the generic const BUFFER_SIZE itself
+    (a capacity 'rounded up' to MAX_STREAMS / a minimum / BUFFER_SIZE + 1 accepts more un-received events than the channel says it can hold)"""
+    fx = ctx.fx
+    n = 0
+    for f in fx.fns:
+        if not any(blk["term"][0] == "Call" and (blk["term"][1].get("f") or "").startswith("crossbeam_channel::bounded") for blk in f["blocks"]): continue
+        body = Body(f); dg = dag.Dag(body)
+        for (b, c) in body.calls:
+            if not (c.get("f") or "").startswith("crossbeam_channel::bounded"): continue
+            a = strip_casts(dg.expr(c["args"][0]))
+            n += 1
+            ctx.ob(rule, f"{f['key']}|crossbeam-capacity-is-BUFFER_SIZE", a[0] == "gconst" and str(a[1]).split("::")[-1] == "BUFFER_SIZE", body.loc(b),
+                   f"bounded(`{dag.show(a)[:60]}`); required: BUFFER_SIZE")
+    ctx.ob(rule, "crossbeam-capacity|instances", n >= 2, "", f"{n} crossbeam channels constructed", nontrivial=False)
+
 
 def _is_assertion(body, c):
     """one edge of the comparison leads nowhere but into a panic (no Return reachable): `assert!` / `debug_assert!`"""
